@@ -572,6 +572,10 @@ func (f *Formatter) renderOpenTag(n *html.Node) string {
 
 	for _, attr := range n.Attr {
 		buf.WriteString(" ")
+		if attr.Namespace != "" {
+			buf.WriteString(attr.Namespace)
+			buf.WriteString(":")
+		}
 		buf.WriteString(attr.Key)
 		// A value that is empty once formatted is written the way an empty value is.
 		if val := helpers.FormatAttr(attr.Val); val != "" {
